@@ -59,6 +59,59 @@ def dSeenUpgrade : Nat := 1
 def dSeenConnection : Nat := 2
 def dSeenSecAccept : Nat := 4
 
+/-- One response header line: new handshake data, headerSeen word, error. -/
+def dlHeader (cfg : DialCfg) (nonce : Bytes) (hs : Handshake) (seen : Nat) (k v : Bytes) :
+    Handshake × Nat × Option DialErr :=
+  if k = strBytes "Upgrade" then
+    (hs, seen ||| dSeenUpgrade, if equalFold v (strBytes "websocket") then none else some .badUpgrade)
+  else if k = strBytes "Connection" then
+    (hs, seen ||| dSeenConnection, if equalFold v (strBytes "Upgrade") then none else some .badConnection)
+  else if k = strBytes "Sec-Websocket-Accept" then
+    (hs, seen ||| dSeenSecAccept, if v.length = 28 ∧ v = Spec.acceptOf nonce then none else some .badSecAccept)
+  else if k = strBytes "Sec-Websocket-Protocol" then
+    match cfg.protocols.find? (fun w => w == v) with
+    | some w => if w.isEmpty then (hs, seen, some .badSubProtocol) else ({ hs with protocol := w }, seen, none)
+    | none => (hs, seen, some .badSubProtocol)
+  else if k = strBytes "Sec-Websocket-Extensions" then
+    ({ hs with extensions := (matchSelectedExtensions v cfg.extensions hs.extensions).1 }, seen,
+      (matchSelectedExtensions v cfg.extensions hs.extensions).2)
+  else if cfg.onHeaderRej ∧ k = cfg.onHeaderKey then (hs, seen, some .onHeader)
+  else (hs, seen, none)
+
+/-- The read/parse loop over response header lines. -/
+def dlLoop (cfg : DialCfg) (nonce : Bytes) : Nat → Bufio → Handshake → Nat → Handshake × Option DialErr × Bufio × Nat
+  | 0, b, hs, seen => (hs, some .malformedResponse, b, seen)
+  | fuel + 1, b, hs, seen =>
+    match readLine b with
+    | (_, some f, b') => (hs, some (.io f), b', seen)
+    | (line, none, b') =>
+      if line.isEmpty then (hs, none, b', seen)
+      else match httpParseHeaderLine line with
+        | none => (hs, some .malformedResponse, b', seen)
+        | some (k, v) =>
+          match (dlHeader cfg nonce hs seen k v).2.2 with
+          | some e => ((dlHeader cfg nonce hs seen k v).1, some e, b', seen)
+          | none => dlLoop cfg nonce fuel b' (dlHeader cfg nonce hs seen k v).1 (dlHeader cfg nonce hs seen k v).2.1
+
+/-- The status-line decision: none = go on to the headers. -/
+def dlStatusLine (sl : Bytes) : Option DialErr :=
+  match httpParseVersion (bsplit3 sl 32).1 with
+  | none => some .malformedResponse
+  | some (major, minor) =>
+    match (if (bsplit3 sl 32).2.1.length = 3 then asciiToInt (bsplit3 sl 32).2.1 else none) with
+    | none => some .malformedResponse
+    | some st =>
+      if major ≠ 1 ∨ minor < 1 then some .badProtocol
+      else if st ≠ 101 then some (.status st)
+      else none
+
+/-- The decision after the blank line. -/
+def dlFinish (seen : Nat) : Option DialErr :=
+  if seen ≠ 7 then
+    some (if seen &&& dSeenUpgrade = 0 then .badUpgrade
+          else if seen &&& dSeenConnection = 0 then .badConnection else .badSecAccept)
+  else none
+
 /-- Dialer.Upgrade after the request was flushed: parse the response from the connection.
     Returns the handshake, the error, and the reader state (buffered bytes + rest of the source)
     — what stays readable "through the returned buffer followed by the connection". -/
@@ -67,53 +120,12 @@ def dialerUpgrade (cfg : DialCfg) (nonce : Bytes) (src : Src) : Handshake × Opt
   match readLine b0 with
   | (_, some f, b1) => ({}, some (.io f), b1)
   | (sl, none, b1) =>
-    let (proto, status, _) := bsplit3 sl 32
-    match httpParseVersion proto with
-    | none => ({}, some .malformedResponse, b1)
-    | some (major, minor) =>
-      match asciiToInt status with
-      | none => ({}, some .malformedResponse, b1)
-      | some st =>
-        if major ≠ 1 ∨ minor < 1 then ({}, some .badProtocol, b1)
-        else if st ≠ 101 then ({}, some (.status st), b1)
-        else
-          let rec loop (fuel : Nat) (b : Bufio) (hs : Handshake) (seen : Nat) : Handshake × Option DialErr × Bufio × Nat :=
-            match fuel with
-            | 0 => (hs, some .malformedResponse, b, seen)
-            | fuel + 1 =>
-              match readLine b with
-              | (_, some f, b') => (hs, some (.io f), b', seen)
-              | (line, none, b') =>
-                if line.isEmpty then (hs, none, b', seen)
-                else match httpParseHeaderLine line with
-                  | none => (hs, some .malformedResponse, b', seen)
-                  | some (k, v) =>
-                    if k = strBytes "Upgrade" then
-                      if equalFold v (strBytes "websocket") then loop fuel b' hs (seen ||| dSeenUpgrade)
-                      else (hs, some .badUpgrade, b', seen)
-                    else if k = strBytes "Connection" then
-                      if equalFold v (strBytes "Upgrade") then loop fuel b' hs (seen ||| dSeenConnection)
-                      else (hs, some .badConnection, b', seen)
-                    else if k = strBytes "Sec-Websocket-Accept" then
-                      if v.length = 28 ∧ v = Spec.acceptOf nonce then loop fuel b' hs (seen ||| dSeenSecAccept)
-                      else (hs, some .badSecAccept, b', seen)
-                    else if k = strBytes "Sec-Websocket-Protocol" then
-                      match cfg.protocols.find? (fun w => w == v) with
-                      | some w => if w.isEmpty then (hs, some .badSubProtocol, b', seen) else loop fuel b' { hs with protocol := w } seen
-                      | none => (hs, some .badSubProtocol, b', seen)
-                    else if k = strBytes "Sec-Websocket-Extensions" then
-                      match matchSelectedExtensions v cfg.extensions hs.extensions with
-                      | (xs, none) => loop fuel b' { hs with extensions := xs } seen
-                      | (xs, some e) => ({ hs with extensions := xs }, some e, b', seen)
-                    else if cfg.onHeaderRej ∧ k = cfg.onHeaderKey then (hs, some .onHeader, b', seen)
-                    else loop fuel b' hs seen
-          match loop (src.bytes.length + 4) b1 {} 0 with
-          | (hs, some e, b', _) => (hs, some e, b')
-          | (hs, none, b', seen) =>
-            if seen ≠ 7 then
-              (hs, some (if seen &&& dSeenUpgrade = 0 then .badUpgrade
-                         else if seen &&& dSeenConnection = 0 then .badConnection else .badSecAccept), b')
-            else (hs, none, b')
+    match dlStatusLine sl with
+    | some e => ({}, some e, b1)
+    | none =>
+      match dlLoop cfg nonce (src.bytes.length + 4) b1 {} 0 with
+      | (hs, some e, b', _) => (hs, some e, b')
+      | (hs, none, b', seen) => (hs, dlFinish seen, b')
 
 /-- dialer.go:hostport. -/
 def hostport (host : Bytes) (defaultPort : Bytes) : Bytes × Bytes :=
